@@ -155,9 +155,10 @@ def z_factor_hallyarbrough(pressure: float, temperature: float) -> float:
     t = 1 / temperature
     y = 0.001
     fdum = 1
-    while np.abs(fdum) > 0.001:
+    pressure_term = 0.06125 * pressure * t * np.exp(-1.2 * (1 - t) ** 2)
+    while np.abs(fdum) > 0.001 * pressure_term:  # relative: the residual scales with pressure
         fdum = (
-            -0.06125 * pressure * t * np.exp(-1.2 * (1 - t) ** 2)
+            -pressure_term
             + (y + y**2 + y**3 - y**4) / (1 - y) ** 3
             - (14.76 * t - 9.76 * t**2 + 4.58 * t**3) * y**2
             + (90.7 * t - 242.2 * t**2 + 42.4 * t**3) * y ** (2.18 + 2.82 * t)
@@ -171,7 +172,7 @@ def z_factor_hallyarbrough(pressure: float, temperature: float) -> float:
         if not 0 < y_new < 1:  # keep the Newton iterate inside the physical range
             y_new = (y + (y_new >= 1)) / 2
         y = y_new
-    zfact = 0.06125 * pressure * t * np.exp(-1.2 * (1 - t) ** 2) / y
+    zfact = pressure_term / y
     return zfact
 
 
